@@ -68,6 +68,8 @@ def describe(cfg):
         d += " [integer arguments as numpy.int64]"
     if cfg.get("iter"):
         d += " [driven through iter(schedule)]" if cfg["iter"] is True else " [driven by one `for action in schedule` loop per phase, left with break]"
+    if cfg.get("blind"):
+        d += " [driver reads no observer]"
     if cfg.get("style"):
         d += " [call style: %s]" % STYLES[cfg["style"]]
     return d
@@ -567,6 +569,9 @@ def iter_driver_box(tier):
             if c["cls"] in ("SingleMemory", "SingleDisk", "TwoLevel", "None") and c["n"] <= 3:
                 yield dict(c, late=2)
             yield dict(c, iter="loops")
+            d = dict(c, blind=True)
+            d.pop("iter")
+            yield d
 
 
 def deep_repeat_probes(tier):
@@ -691,7 +696,7 @@ def _candidates(cfg):
                     d["c8"] = list(cfg["c8"])
                     d["c8"][i] = nv
                     yield d
-    for flag in ("numba", "style", "np", "iter"):
+    for flag in ("numba", "style", "np", "iter", "blind"):
         if cfg.get(flag):
             d = dict(cfg)
             d.pop(flag)
